@@ -70,8 +70,8 @@ def dCfall1 (sat : Nat → Bytes → Bool) (R : List Route) (m : Bytes) (p : RPa
   | none => false
   | some ρ => (routeMatch sat ρ p).isNone && (shapeCands R m p).any fun r => (routeMatch sat r p).isSome
 
-/-- K01a: another route reaches one of `ρ`'s parameter positions through the same prefix but calls the
-parameter differently (one shared child per node, one name) -/
+/-- K01a (repaired; kept for the as-shipped witness): another route reaches one of `ρ`'s parameter
+positions through the same prefix but calls the parameter differently (one shared child per node, one name) -/
 def dNames1 (R : List Route) (m : Bytes) (p : RPath) : Bool :=
   !staticHit R m p &&
   match rho R m p with
@@ -100,10 +100,21 @@ def dCfall (sat : Nat → Bytes → Bool) (R : List Route) (req : Req) (p : RPat
 def dNames (R : List Route) (req : Req) (p : RPath) : Bool := (methodsOf req).any fun m => dNames1 R m p
 def dOverwrite (R : List Route) (req : Req) (p : RPath) : Bool := (methodsOf req).any fun m => dOverwrite1 R m p
 
-/-- the class token the driver prints (first that applies, most specific first) -/
+/-- another route has exactly `ρ`'s shape but another pattern, i.e. names a parameter differently (the tree
+keeps one leaf per shape, the compiled matcher one template per pattern text) — the part of K01c that
+the comparison of the two engines (C11) is sensitive to -/
+def dSameShape1 (R : List Route) (m : Bytes) (p : RPath) : Bool :=
+  !staticHit R m p &&
+  match rho R m p with
+  | none => false
+  | some ρ => (dynRoutes R m).any fun r1 => shapeEq r1.pat ρ.pat && r1.pat ≠ ρ.pat
+
+/-- the class token the driver prints (first that applies, most specific first). Since the K01a repair
+(a handler reads its parameters under the names of its own pattern) `names` is no longer a class; a
+same-shape overwrite (K01c) deviates exactly when the surviving registration fails its constraints
+while another candidate passes, so `overwrite` is the more specific name of such a `cfall` case. -/
 def classify (sat : Nat → Bytes → Bool) (R : List Route) (req : Req) (p : RPath) : String :=
-  if dOverwrite R req p then "overwrite"
-  else if dNames R req p then "names"
+  if dOverwrite R req p && dCfall sat R req p then "overwrite"
   else if dShadow R req p then "shadow"
   else if dCfall sat R req p then "cfall"
   else "-"
